@@ -108,10 +108,10 @@ PROPS = {
         "level": "model_checking",
         "uses_vsched": True,
         "technique": "stateless model checking of a server with three real sessions under a controlled scheduler with owned timers: bursts x debounce-timer placements (time deviations) x schedules; plus an explicit-state search over subscribe/unsubscribe/update/close histories",
-        "claim": "(E1) legacy session, 2026-07-28 session with a matching subscriptions/listen and one without: for every burst of 1-3 add/remove changes, every placement of the 10ms debounce timer and every schedule within the budget, each entitled session receives a tools/list_changed after the last change whose handler-time tools/list equals the final server state, unentitled sessions and a server with the capability disabled send none, a list after the handled notification is never an older cached answer (TTL 0 and 60s, with a list call in flight across the change), a session whose peer stopped draining or whose transport fails during the fan-out does not deprive the other sessions of their notification (either connection order), closed sessions leave no subscription; a 2026-07-28 session that unsubscribes from a resource and subscribes again at once is, after everything settled, still served resources/updated (B<=2, thorough 3); (E2) all histories up to the depth over subscribe/unsubscribe/resource-updated/close for two legacy and one modern session: resources/updated reaches exactly the currently subscribed sessions; every feature kind (tools, prompts, resources, resource templates) x {legacy, 2026-07-28} x TTL {0, 60s}: add/remove/add each announced and visible to the next list; the read cache after resources/updated; independence of a session's listens (unsubscribing one resource ends neither the other resource subscription nor the list-changed subscriptions); all histories of depth <=6 (thorough 8) over {session connects, oldest session closes, tool added/removed, 5ms pass, 20ms pass}: one second later every live session has handled a notification at least as late as the last change made while it was connected",
+        "claim": "(E1) legacy session, 2026-07-28 session with a matching subscriptions/listen and one without: for every burst of 1-3 add/remove changes, every placement of the 10ms debounce timer and every schedule within the budget, each entitled session receives a tools/list_changed after the last change whose handler-time tools/list equals the final server state, unentitled sessions and a server with the capability disabled send none, a list after the handled notification is never an older cached answer (TTL 0 and 60s, with a list call in flight across the change), a session whose peer stopped draining or whose transport fails during the fan-out does not deprive the other sessions of their notification (either connection order), closed sessions leave no subscription; a 2026-07-28 session that unsubscribes from a resource and subscribes again at once is, after everything settled, still served resources/updated; a resources/read in flight across a change of the resource (answer computed before the change, resources/updated handled before the answer arrives, nothing or only an expired entry cached) does not make a later read return the pre-change content (B<=2, thorough 3); (E2) all histories up to the depth over subscribe/unsubscribe/resource-updated/close for two legacy and one modern session: resources/updated reaches exactly the currently subscribed sessions; every feature kind (tools, prompts, resources, resource templates) x {legacy, 2026-07-28} x TTL {0, 60s}: add/remove/add each announced and visible to the next list; the read cache after resources/updated; independence of a session's listens (unsubscribing one resource ends neither the other resource subscription nor the list-changed subscriptions); all histories of depth <=6 (thorough 8) over {session connects, oldest session closes, tool added/removed, 5ms pass, 20ms pass}: one second later every live session has handled a notification at least as late as the last change made while it was connected",
         "note": "three sessions, one URI, bursts of <=3 changes; budgets B<=1 (quick) / 2 (thorough)",
         "parts": [
-            {"pkg": "mcp", "mode": "instr", "test": "TestVerifC18", "scenario_prefix": ["burst/", "resubscribe/"], "two_phase": True, "time_s": {"thorough": 1800}},
+            {"pkg": "mcp", "mode": "instr", "test": "TestVerifC18", "scenario_prefix": ["burst/", "resubscribe/", "read-in-flight"], "two_phase": True, "time_s": {"thorough": 1800}},
             {"pkg": "mcp", "mode": "race", "test": "TestVerifC18", "scenario_prefix": "free-race/", "free_runs": {"quick": 60, "thorough": 600}},
             {"pkg": "mcp", "mode": "plain", "test": "TestVerifC18Resources", "scenario_prefix": "resource-", "shards": 1, "gomaxprocs": 16, "time_s": {"quick": 120, "thorough": 1200}},
             {"pkg": "mcp", "mode": "plain", "test": "TestVerifC18Kinds", "scenario_prefix": "kinds-", "shards": 1},
